@@ -1,6 +1,7 @@
 """Driver: verify the lemmas of a property, discharge obligations, replay refutations, write evidence."""
 import importlib
 import json
+import re
 import multiprocessing as mp
 import os
 import sys
@@ -153,6 +154,10 @@ def match_known(rec, known, prop_id):
             continue
         if k.get('site') and k['site'] != rec['site']:
             continue
+        if k.get('site_prefix') and not rec['site'].startswith(k['site_prefix']):
+            continue
+        if k.get('text_contains') and not all(s in rec['text'] for s in k['text_contains']):
+            continue
         if k.get('lemma') and k['lemma'] != rec['lemma']:
             continue
         tc = k.get('trace_contains')
@@ -161,7 +166,10 @@ def match_known(rec, known, prop_id):
         ic = k.get('injection_contains')
         if ic is not None:
             injs = (rec.get('info') or {}).get('injections') or []
-            if not injs or not all(any(s in str(r[3]) for s in ic) for r in injs):
+            def hit(s, line):
+                # 're:<regex>' entries tolerate a renamed local in the landing line; plain entries are substrings
+                return bool(re.search(s[3:], line)) if s.startswith('re:') else s in line
+            if not injs or not all(any(hit(s, str(r[3])) for s in ic) for r in injs):
                 continue
         tn = k.get('trace_excludes')
         if tn and any(any(t in s for s in rec['trace']) for t in tn):
